@@ -157,6 +157,9 @@ func modelTurn(c CallSpec, pos int, exchange bool, base int64) (bs []ExpBatch, e
 		rows = 0
 	}
 	data := ExpBatch{Kind: "data", Data: MakeOut(c.OutSchemaOf(), base, rows, t.Pad), Meta: turnMeta(t)}
+	// framework-generated failures (no data batch, second emit, Finish on an
+	// exchange, uncastable input) are only required to be exceptions: their
+	// wording is not part of the contract
 	errB := func(e *ErrSpec, has, typ string) []ExpBatch {
 		return []ExpBatch{{Kind: "error", Err: e, ErrHas: has, ErrTyp: typ}}
 	}
@@ -168,15 +171,15 @@ func modelTurn(c CallSpec, pos int, exchange bool, base int64) (bs []ExpBatch, e
 	case "error":
 		return errB(t.Err, "", ""), true, true
 	case "noemit":
-		return errB(nil, "No data batch", "RuntimeError"), true, true
+		return errB(nil, "", ""), true, true
 	case "emit2":
-		return errB(nil, "only one data batch", ""), true, true
+		return errB(nil, "", ""), true, true
 	case "emit_then_error":
 		return errB(t.Err, "", ""), true, true
 	case "finishx_emit":
 		return append(logs, data), false, false
 	case "finishx_err":
-		return errB(nil, "not allowed on exchange", ""), true, true
+		return errB(nil, "", ""), true, true
 	}
 	panic("modelTurn: " + t.Act)
 }
@@ -231,7 +234,7 @@ func ModelPipe(c CallSpec) (res ExpResult, ok bool) {
 			summed := false
 			if c.HasInputSchema() {
 				if !castable {
-					data.Batches = append(data.Batches, ExpBatch{Kind: "error", ErrHas: "Input schema mismatch", ErrTyp: "TypeError"})
+					data.Batches = append(data.Batches, ExpBatch{Kind: "error"})
 					res.EndsErr = true
 					break
 				}
